@@ -13,13 +13,16 @@ RULE = (
     "reader task: HeartBtInt hb in [1, 120] s; phase of the last inbound frame relative to the 1 s watchdog tick in [0, 1); "
     "peer script in {silent from t0; periodic traffic with period 0.3/0.6/0.9/1.1/1.7 x hb (valid Heartbeats or application "
     "messages); burst then silence; answers every TestRequest after a delay in [0, 2.2 hb] with the right / a wrong / a "
-    "numerically lower / non-numeric / no TestReqID, optionally sending an application message while its answer is under way; sends its own TestRequests}; optional own outbound application traffic. Oracle (tolerances: "
+    "numerically lower / non-numeric / no TestReqID, optionally sending an application message while its answer is under way or with one of its frames lost right before the answer; sends its own TestRequests "
+    "(ids also base64-like with '=' inside; optionally every second one preceded by a lost frame); reveals a gap and replays it slowly but steadily (one PossDup message every 0.3-0.8 hb)}; the scripted "
+    "peer answers the endpoint's ResendRequests with a GapFill; the scenario runs on the first or on the second connection of the same object; optional own outbound application traffic. Oracle (tolerances: "
     "tick 1 s, TestReqID truncation 1 s): silent peer -> TestRequest within (hb-1, hb+1] s of the last inbound frame, "
     "disconnected no later than 3 hb + 3 s after it and not before 2 hb - 1 s after the TestRequest; peer with period <= hb "
     "- 1.5 s -> no TestRequest and no disconnect over the horizon; peer answering each TestRequest with the right id within 2 hb "
     "- 2 s -> never disconnected, never two TestRequests outstanding; every inbound TestRequest answered by exactly one "
     "Heartbeat with the same TestReqID string; a Heartbeat with a wrong TestReqID while one is outstanding -> Logout then "
-    "disconnect. Non-trivial = scenario in which at least one TestRequest is written; distinct by scenario parameters."
+    "disconnect; a peer replaying a gap with one frame every <= hb - 1.5 s is not disconnected during the replay and the replayed "
+    "messages are delivered once each in order. Non-trivial = scenario in which at least one TestRequest is written; distinct by scenario parameters."
 )
 ASSUMPTIONS = [
     "virtual clock replaces time.time() in asyncfix.connection and the event-loop clock; horizon = 8 hb + 10 s",
